@@ -1538,6 +1538,15 @@ impl<'a> Model<'a> {
                     result
                 };
 
+                // A non-finite number is stored as #NUM! (see `set_cells_with_result`):
+                // dependents evaluated in this same pass must read that error too
+                let result = match result {
+                    CalcResult::Number(value) if !value.is_finite() => {
+                        CalcResult::new_error(Error::NUM, cell_reference, String::new())
+                    }
+                    other => other,
+                };
+
                 if let Err(e) = self.set_cells_with_result(cell_reference, &original_cell, &result)
                 {
                     self.cells.insert(key, CellState::Evaluated);
